@@ -462,13 +462,10 @@ def d5_field_diff(chk, repo):
                 sq = decode_call(p.ctx, c[1][1])
                 if sq and sq[0] == "dfu.assemble_index" and len(sq[1]) == 3:
                     widths = sq[1][2]
-                    bases = strip_stores(p.ctx, widths)
                     st_ = stores_of(p.ctx, widths)
-                    item = p.ctx.mk(("iter", ()), (p.spec("pad_width.items()"),))
-                    k_ = p.ctx.mk(("unpack", 0), (item,))
-                    w_ = p.ctx.mk(("unpack", 1), (item,))
-                    okd = len(st_) == 1 and p.eq(st_[0][0], p.spec("self.mesh.region._dim2index(k)", env={"k": k_})) and \
-                        p.eq(st_[0][1], w_) and all((p.ctx.head_of(b) or ("",))[0] == "dict" and not p.ctx.args_of(b) for b in bases)
+                    # the width map: axis of direction d -> widths of d, for every (d, widths) of pad_width (a filling loop is
+                    # read as the dict comprehension it is)
+                    okd = p.eq(widths, p.spec("{self.mesh.region._dim2index(k): w for k, w in pad_width.items()}"))
                     want = p.spec(f"np.pad({src}, dfu.assemble_index((0, 0), len({src}.shape), D), mode=mode, **kwargs)",
                                   env={"D": widths})
                     okp = okd and p.eq(got, want)
